@@ -474,10 +474,6 @@ package redis
 //@   prop C11 C13
 //@   requires f != nil && req != nil && req.body != nil
 
-//@ func (*compressFilter).Compress
-//@   prop C11 C13
-//@   requires f != nil && cfg != nil && resp != nil
-
 //@ func (*compressFilter).Decompress
 //@   prop C11 C13
 //@   requires f != nil && resp != nil
